@@ -1,6 +1,8 @@
 package engine
 
 import (
+	"strings"
+
 	"covr/internal/cases"
 	"covr/internal/e1"
 	"covr/internal/genr"
@@ -225,4 +227,64 @@ func C18(c *Ctx) {
 		NonTrivial:  func(o *e1.Outcome) bool { return o.Run != nil && o.Run.PanicRuns > 0 },
 		MinDistinct: 300,
 	})
+}
+
+// C12 — unsupported constructs are rejected or preserved, never silently mistranslated.
+func C12(c *Ctx) {
+	progs := cases.Reject()
+	c.Rep.Rule = "supported programs with ONE unsupported construct (goto, labels, labelled break/continue, select, defer, fallthrough out of / into a yielding case, range over func / pointer-to-array / type parameter, yield in an if initialiser, go/defer Yield, wrong result signatures, range over an iterator without variable) injected at 5 statement positions, one compiler invocation per case; outcome classes: rejected with a non-empty diagnostic / output does not build / trace equal to the reference coroutine (the construct simply executes natively there) are fine; a divergent trace or a surviving Yield stub call (observed by the trap overlay of co.go) is a violation; negative controls put the construct into a nested non-generator closure, where it must be accepted and equivalent. distinct = case x tape."
+	classes := map[string]int{}
+	RunE1(c, E1Spec{
+		Programs:    progs,
+		Opts:        e1.Opts{},
+		Kinds:       []string{"CR-full", "STUB"},
+		MinDistinct: 20,
+		Judge: func(c *Ctx, o *e1.Outcome) bool {
+			p := o.Prog
+			if p.Expect == "accept" {
+				if o.CompilePanic != "" || o.BuildErr != "" {
+					c.Rep.Violate(verdict.Violation{Case: p.Name, Sig: "negative-control-not-accepted:" + firstLine(o.CompilePanic) + buildSig(o.BuildErr),
+						What:   "negative control (construct inside a nested non-generator closure) was not accepted:\n" + o.CompilePanic + trimTo(o.BuildErr, 1000) + "\n--- source\n" + o.CoSource,
+						Replay: replayDoc{Engine: "e1", Program: p, CoSrc: o.CoSource}})
+					return true
+				}
+				classes["control-accepted"]++
+				return false
+			}
+			switch {
+			case o.CompilePanic != "":
+				if strings.TrimSpace(o.CompilePanic) == "" {
+					c.Rep.Violate(verdict.Violation{Case: p.Name, Sig: "rejected-without-diagnostic", What: "compiler rejected the program with an empty diagnostic\n" + o.CoSource})
+				}
+				classes["rejected"]++
+				c.Rep.Distinct(p.ShapeHash() + "/rejected")
+				if len(classes) < 40 {
+					c.Rep.Sample(map[string]any{"case": p.Name, "outcome": "rejected", "diagnostic": firstLine(o.CompilePanic)})
+				}
+				return true
+			case o.BuildErr != "":
+				classes["unbuildable"]++
+				c.Rep.Distinct(p.ShapeHash() + "/unbuildable")
+				return true
+			case o.Run != nil && o.Crashed == "" && o.Hung == "":
+				bad := false
+				for _, d := range o.Run.Diffs {
+					if d.Kind == "CR-full" || d.Kind == "STUB" {
+						bad = true
+					}
+				}
+				if bad {
+					classes["divergent"]++
+				} else if p.NoRef {
+					classes["accepted-without-reference(no stub call observed)"]++
+				} else {
+					classes["equivalent"]++
+				}
+			}
+			return false
+		},
+	})
+	for k, v := range classes {
+		c.Rep.Count("outcome_"+k, v)
+	}
 }
